@@ -7,7 +7,7 @@ VERIF = os.path.normpath(os.path.join(HERE, '..'))
 
 BASE_NOTE = ('Trusted: Lean 4.33.0 kernel, axioms within {propext, Classical.choice, Quot.sound} (audited by '
              '#print axioms on every run; no sorry/admit/native_decide/bv_decide/own axioms), the translator '
-             'tools/gen_tables.py for the named tables, and the sampled differential correspondence between the '
+             'tools/gen_tables.py for the named tables and tools/gen_code.py for the functions it translates statement by statement (get_valid_classes, get_multiplicity, the index block of get_meta, the file_idx expressions of get_data: proved equal to the model functions on every run), and the sampled differential correspondence between the rest of the '
              'hand-written Lean model and /repo (generators, canonicalisers, driver JSON decoding). CPython, numpy, '
              'nibabel, pydicom semantics are modelled as parameters, not verified.')
 
@@ -118,7 +118,7 @@ def main():
         })
     man = {
         'version': 1,
-        'setup_cmd': 'cd lean && python3 ../tools/gen_tables.py && lake build DcmVerif dcmdriver',
+        'setup_cmd': 'cd lean && python3 ../tools/gen_tables.py && python3 ../tools/gen_code.py && lake build DcmVerif dcmdriver ' + ' '.join('DcmVerif.Props.C%02d' % i for i in range(1, 21)),
         'hooks': {
             'guard': 'DCMSTACK_VERIF',
             'enable': 'no source hooks are needed: the harness imports /repo/src in-process (PYTHONPATH) and observes through the public API; DCMSTACK_VERIF=1 is exported by tools/check for completeness',
@@ -129,7 +129,7 @@ def main():
         'engines': [{
             'name': 'lean-model', 'path': 'lean/',
             'serves_properties': sorted(CLAIMED),
-            'kind_free_text': 'Lean 4 model (lean/DcmVerif/Model), proofs (Proofs, Props), generated tables (Generated, from tools/gen_tables.py), compiled JSON-line driver (lean/Main.lean) used by the Python correspondence harness (tools/harness)',
+            'kind_free_text': 'Lean 4 model (lean/DcmVerif/Model), proofs (Proofs, Props), generated tables and translated functions (Generated, from tools/gen_tables.py and tools/gen_code.py), compiled JSON-line driver (lean/Main.lean) used by the Python correspondence harness (tools/harness)',
         }],
         'checks': checks,
         'notes': 'Every check: translator -> lake build of the property theorems -> axiom audit -> correspondence (model vs /repo working tree) -> oracle search on the implementation -> evidence. Exit 0 clean, 1 with VIOLATION lines, 2 infrastructure.',
